@@ -19,7 +19,7 @@
    first value is the symbol for (parsed as an infix block), and the known findings (strings / keys needing Go-only escapes). *)
 From Coq Require Import ZArith List Bool.
 From ZV Require Import Model.Regex Generated.LexTables Model.Lexer Model.Reader Model.Printer Model.PrinterPretty Model.StrLit
-  Proofs.PrinterLex Proofs.RegexSem Proofs.Classify Proofs.PrinterProofs Proofs.EvalJson Proofs.PrinterPretty Proofs.StrLitProofs.
+  Proofs.PrinterLex Proofs.RegexSem Proofs.Classify Proofs.PrinterProofs Proofs.EvalJson Proofs.PrinterPretty Proofs.StrLitProofs Proofs.SymReadable.
 Import ListNotations.
 Open Scope Z_scope.
 
@@ -492,3 +492,78 @@ Example literal_with_raw_controls :
   observe (parse_whole true false 10 (bt_spelling [97; 13; 10; 92; 110; 34])) = (StDone, [SStr true [97; 13; 10; 92; 110; 34]]) /\
   observe (parse_whole true false 10 (chr_spelling (LRaw 13))) = (StDone, [SChar 13]).
 Proof. repeat split; vm_compute; reflexivity. Qed.
+
+(* ---- which symbol NAMES have a printed syntax (Proofs/SymReadable.v).  SexpSymbol.SexpString prints the bare name;
+   [reads_back n] := lex_text (n ++ [32]) = ([mkTok TSymbol n], true): a fresh lexer turns the name and a blank into exactly
+   one TokenSymbol with that name, no error.  The known finding symbol-no-printed-syntax is the complement.
+   FULL statement wanted: forall n, reads_back n <-> R n = true for one decidable R.  Proved: the exact biconditional on every
+   name without special rune; that the biconditional with sym_ok is FALSE (operators and sign-absorbing atoms read back);
+   and the exact biconditional on every name that begins with a plain rune (see the _partial comment below for what is missing). ---- *)
+Theorem symbol_readable_plain_iff : forall n, Forall plain n ->
+  (reads_back n <-> n <> [] /\ decode_atom n = Some (mkTok TSymbol n)).
+Proof. exact SymReadable.plain_reads_back_iff. Qed.
+Print Assumptions symbol_readable_plain_iff.
+
+Theorem sym_ok_exact : forall n, sym_ok n <-> Forall plain n /\ reads_back n /\ n <> str_nil.
+Proof. exact SymReadable.sym_ok_iff. Qed.
+Print Assumptions sym_ok_exact.
+
+(* the literal biconditional "reads back <-> sym_ok" does not hold: + reads back (so do <= , -5x , .5e+x , -5e+1e+x) *)
+Theorem symbol_readable_iff_sym_ok_refuted : exists n, reads_back n /\ ~ sym_ok n.
+Proof. exact SymReadable.symbol_readable_iff_sym_ok_refuted. Qed.
+Print Assumptions symbol_readable_iff_sym_ok_refuted.
+
+Example odd_names_read_back :
+  Forall reads_back [[43]; [60; 61]; [45; 53; 120]; [46; 53; 101; 43; 120]; [45; 53; 101; 43; 49; 101; 43; 120]] /\
+  Forall (fun n => ~ Forall plain n) [[43]; [60; 61]; [45; 53; 120]; [46; 53; 101; 43; 120]; [45; 53; 101; 43; 49; 101; 43; 120]].
+Proof. split; [exact SymReadable.odd_names_read_back|exact SymReadable.odd_names_not_plain]. Qed.
+
+(* EXACT, every name that begins with a plain rune (both directions, all rune lists): it reads back iff all its runes are
+   absorbed into one atom ([absorbed]: each later rune is plain, or is a sign directly behind e / E while the buffer so far is
+   the beginning of a number in scientific notation - lexer.go LexerNormal case + / -) and DecodeAtom calls that atom a symbol. *)
+Theorem symbol_readable_plain_first_iff : forall c rest, plain c ->
+  (reads_back (c :: rest) <->
+   absorbed [c] rest = true /\ decode_atom (c :: rest) = Some (mkTok TSymbol (c :: rest))).
+Proof. exact SymReadable.plain_first_reads_back_iff. Qed.
+Print Assumptions symbol_readable_plain_first_iff.
+
+(* non-vacuity, both sides: foo$ and .5e+x satisfy the right-hand side; a+b fails [absorbed]; 1e+5 is absorbed but a float *)
+Example plain_first_instances :
+  (absorbed [102] [111; 111; 36] = true /\ decode_atom [102; 111; 111; 36] = Some (mkTok TSymbol [102; 111; 111; 36])) /\
+  (absorbed [46] [53; 101; 43; 120] = true /\ decode_atom [46; 53; 101; 43; 120] = Some (mkTok TSymbol [46; 53; 101; 43; 120])) /\
+  absorbed [97] [43; 98] = false /\
+  (absorbed [49] [101; 43; 53] = true /\ decode_atom [49; 101; 43; 53] = Some (mkTok TFloat [49; 101; 43; 53])).
+Proof. vm_compute. repeat split; reflexivity. Qed.
+
+(* the converse half in the form of the finding symbol-no-printed-syntax: a special rune behind a non-empty plain prefix makes
+   the name unreadable unless it is an absorbed exponent sign.
+   _partial (what is missing for ONE biconditional over all names): names that BEGIN with a special rune - the one- and
+   two-rune operators and -digit... atoms, which read back (witnesses above), and leading blanks, quotes, comment starts,
+   brackets, which do not - are characterised by witnesses and the tie only. *)
+Theorem symbol_special_not_readable_partial : forall a c rest, Forall plain a -> a <> [] -> mem_z c special_runes = true ->
+  ((c =? 43) || (c =? 45)) && ((last a 0 =? 101) || (last a 0 =? 69)) && sci_prefix_ok a = false ->
+  ~ reads_back (a ++ c :: rest).
+Proof. exact SymReadable.special_after_plain_not_readable. Qed.
+Print Assumptions symbol_special_not_readable_partial.
+
+(* non-vacuity: a+b , a b , a:b , a/b , "a(" are covered; 1e+5 is not (absorbed sign: it is a float) *)
+Example symbol_special_instances :
+  ~ reads_back [97; 43; 98] /\ ~ reads_back [97; 32; 98] /\ ~ reads_back [97; 58; 98] /\ ~ reads_back [97; 47; 98] /\
+  ~ reads_back [97; 40] /\
+  ((43 =? 43) || (43 =? 45)) && ((last [49; 101] 0 =? 101) || (last [49; 101] 0 =? 69)) && sci_prefix_ok [49; 101] = true.
+Proof.
+  repeat split;
+    try (apply (SymReadable.special_after_plain_not_readable [97]);
+         [repeat constructor|discriminate|vm_compute; reflexivity|vm_compute; reflexivity]).
+Qed.
+
+(* names that begin with a special rune, witnesses: the ten one-rune operators and the fourteen two-rune operators of BuiltinOpRegex
+   read back (LexerBuiltinOperator emits TokenSymbol); && and || do not (rewritten to and / or), := is TokenFreshAssign,
+   a leading blank, quote or bracket never reads back *)
+Example operator_names_read_back :
+  Forall reads_back [[43]; [45]; [42]; [60]; [62]; [61]; [33]; [38]; [124]; [47];
+                     [43; 43]; [45; 45]; [43; 61]; [45; 61]; [61; 61]; [60; 61]; [62; 61]; [60; 45]; [45; 62]; [42; 61]; [47; 61];
+                     [42; 42]; [33; 61]; [60; 33]] /\
+  Forall (fun n => lex_text (n ++ [32]) <> ([mkTok TSymbol n], true))
+         [[38; 38]; [124; 124]; [58; 61]; [32; 97]; [39; 97]; [34; 97; 34]; [40; 97]; [47; 47; 97]; [58; 97]; [97; 58]].
+Proof. split; repeat constructor; vm_compute; try reflexivity; intro H; discriminate H. Qed.
